@@ -16,7 +16,7 @@ import z3
 
 from pyvc import values as V
 from pyvc.values import Obj, PyList, PyDict, AbsVal, Builtin, zint, simp, z_and, z_or, z_not
-from pyvc.contracts import (Contract, FunctionUnit, LemmaUnit, sym_int, sym_str, sym_bool, new_obj, resolve_class)
+from pyvc.contracts import (Contract, FunctionUnit, LemmaUnit, LoopContract, sym_int, sym_str, sym_bool, new_obj, resolve_class)
 from pyvc.smt import EngineError
 from pyvc.interp import PyExc
 from contracts.tokenizer import mk_parsing_state, mk_token, TR
@@ -148,6 +148,42 @@ def register(reg):
                      True if reader_pos is None else V.z_eq(reader_pos, it.getattr(n, 'pos_end')))
 
     TRY = 'pylatexenc.latexnodes.parsers._expression._TryAgainWithSkippedCommentOrWhitespaceNodes'
+
+    def skipped_node(it, kind, tag):
+        """a comment node or a whitespace chars node that the expression parser skipped over"""
+        p = it.ctx.fresh_int(tag + '.pos')
+        e = it.ctx.fresh_int(tag + '.pos_end')
+        it.ctx.assume(z3.And(0 <= p, p < e))
+        base = {'pos': p, 'pos_end': e, 'parsing_state': None, 'latex_walker': None}
+        if kind == 'comment':
+            base.update(comment=it.fresh_str(tag + '.comment'), comment_post_space=it.fresh_str(tag + '.post_space'))
+            n = new_obj(it, NODES + 'LatexCommentNode', base, tag=tag, is_input=False)
+            it.ctx.ghost.setdefault('skipped_comments', []).append(n)
+        else:
+            base.update(chars=it.fresh_str(tag + '.chars'))
+            n = new_obj(it, NODES + 'LatexCharsNode', base, tag=tag, is_input=False)
+        return n
+
+    def make_err(it, env, cls):
+        o = Obj(resolve_class(it, EXC + cls), {
+            'pos': it.ctx.fresh_int('err.pos'), 'lineno': None, 'colno': None, 'msg': it.fresh_str('msg'), 's': None,
+            'open_contexts': PyList([]), 'error_type_info': None, 'input_source': None, 'args': ()}, tag='exc')
+        o.open = True
+        return o
+
+    def make_expr_nodes(it, env):
+        """the expression itself: one node (seen from LatexExpressionParser.parse)"""
+        p = it.ctx.fresh_int('expr.pos')
+        e = it.ctx.fresh_int('expr.pos_end')
+        it.ctx.assume(z3.And(0 <= p, p <= e))
+        n = new_obj(it, NODES + 'LatexGroupNode', {'pos': p, 'pos_end': e, 'parsing_state': None, 'latex_walker': None,
+                                                   'nodelist': None, 'delimiters': ('', '')}, tag='expression', is_input=False)
+        return PyList([n])
+
+    def make_try_again(it, env):
+        k = it.ctx.choose(3, 'what was skipped')
+        nodes = [] if k == 0 else [skipped_node(it, 'comment' if k == 1 else 'chars', 'skipped')]
+        return Obj(resolve_class(it, TRY), {'skipped_nodes': PyList(nodes), 'pos': it.ctx.fresh_int('try.pos'), 'args': ()}, tag='exc')
     c_pst = reg.add(Contract(
         EXPR + '._parse_single_token', setup=setup_pst,
         requires=[('reader-in-range', '0 <= %s and %s <= len(token_reader.s)' % (RDP, RDP)),
@@ -160,13 +196,58 @@ def register(reg):
                  ('single-token-node-covers-its-token-and-the-reader-stands-at-its-end',
                   'nodes_span_token(result, %s)' % RDP),
                  ('reader-never-moves-backwards', 'old(%s) <= %s and %s <= len(latex_walker.s)' % (RDP, RDP, RDP))],
-        raises={EXC + 'LatexWalkerNodesParseError': {'ensures': [LOC]},
-                EXC + 'LatexWalkerParseError': {'ensures': [LOC]},
-                TRY: {'ensures': []}},
+        result_make=make_expr_nodes,
+        raises={EXC + 'LatexWalkerNodesParseError': {'make': lambda it, env: make_err(it, env, 'LatexWalkerNodesParseError'), 'ensures': [LOC]},
+                EXC + 'LatexWalkerParseError': {'make': lambda it, env: make_err(it, env, 'LatexWalkerParseError'), 'ensures': [LOC]},
+                TRY: {'make': make_try_again, 'ensures': [
+                    ('reader-never-moves-backwards', 'old(%s) <= %s and %s <= len(latex_walker.s)' % (RDP, RDP, RDP))]}},
         modifies=[('token_reader._pos', 'int'), ('latex_walker._line_no_calc', lambda it, hint, cur=None: cur)]))
     units['LatexExpressionParser._parse_single_token'] = FunctionUnit(c_pst, inline={
         EXPR + '._check_if_requires_args', W + '.make_node', W + '.check_tolerant_parsing_ignore_error'}, split_depth=5)
 
-    for k in units:
+    # ---- LatexExpressionParser.parse: what becomes of the comments skipped before the expression (C12) ---------------------------------
+    def setup_expr(it):
+        d = setup_pst(it)
+        eps = d.pop('expr_parsing_state')
+        # sub_context(enable_environments=False) yields some parsing state satisfying the invariant (C17 verifies
+        # which fields it carries; they do not matter here)
+        d['parsing_state'].fields['sub_context'] = Builtin('sub_context', lambda it2, a, k: eps)
+        return d
+
+    def mk_skipped_so_far(it, hint):
+        """bounded stand-in: at most two nodes were skipped in earlier iterations (stated in the evidence)"""
+        n = it.ctx.choose(3, 'nodes skipped so far')
+        return PyList([skipped_node(it, 'comment' if it.ctx.choose(2, 'earlier skipped node %d is a comment' % i) else 'chars',
+                                    'earlier%d' % i) for i in range(n)])
+
+    @reg.spec('keeps_skipped_comments')
+    def keeps_skipped_comments(it, result):
+        want = it.ctx.ghost.get('skipped_comments', [])
+        if not want:
+            return True
+        have = []
+        if isinstance(result, Obj) and result.cls.name == 'LatexNodeList':
+            have = list(result.fields['nodelist'].items)
+        elif isinstance(result, Obj) and result.cls.name == 'LatexGroupNode' and isinstance(result.fields.get('nodelist'), Obj):
+            have = list(result.fields['nodelist'].fields['nodelist'].items)
+        return all(any(h is w for h in have) for w in want)
+    reg.add_loop(LoopContract(EXPR + '.parse', 0, invariant=[('reader-in-range', '0 <= %s and %s <= len(token_reader.s)' % (RDP, RDP))], havoc={'exprnodes': mk_skipped_so_far, 'moreexprnodes': 'none',
+                                                                       'thenodelist': 'none', 'result': 'none', 'e': 'none'},
+                              havoc_fields=['token_reader._pos', 'latex_walker._line_no_calc'],
+                              note='bounded: the nodes skipped in earlier iterations are a list of at most two'))
+    c_expr = Contract(
+        EXPR + '.parse', setup=setup_expr,
+        requires=[('reader-in-range', '0 <= %s and %s <= len(token_reader.s)' % (RDP, RDP)),
+                  ('reader-and-walker-share-the-string', 'token_reader.s == latex_walker.s'),
+                  ('reader-and-walker-agree-on-tolerant-mode', 'token_reader.tolerant_parsing == latex_walker.tolerant_parsing'),
+                  ('context-database-invariant', 'db_inv(parsing_state.latex_context)')],
+        ensures=[('internal:comments-read-on-the-way-to-the-expression-stay-in-the-tree', 'keeps_skipped_comments(result[0])')],
+        raises={EXC + 'LatexWalkerNodesParseError': {'ensures': [LOC]}, EXC + 'LatexWalkerParseError': {'ensures': [LOC]}},
+        modifies=[('token_reader._pos', 'int'), ('latex_walker._line_no_calc', lambda it, hint, cur=None: cur)])
+    expr_units = {'LatexExpressionParser.parse': FunctionUnit(c_expr, inline={
+        W + '.make_nodelist', W + '.make_node', NODES + 'LatexNodeList.__init__', NODES + 'LatexNodeList.__getitem__',
+        NODES + 'LatexNodeList.__len__', NODES + '_update_posposend_from_nodelist'}, split_depth=4)}
+
+    for k in list(units) + list(expr_units):
         contracts.REPLAYERS[k] = replay_parse
-    return {'C01': dict(units), 'C05': dict(units), 'C06': dict(units)}
+    return {'C01': dict(units), 'C05': dict(units), 'C06': dict(units), 'C12': expr_units}
